@@ -180,3 +180,63 @@ func checkMapOrder(c *core.Ctx, rule string, pkgs []string) {
 	c.OK(rule, "loops over maps in "+strings.Join(pkgs, ", "), 0, loops, fmt.Sprintf("%d loops over maps scanned, %d match a first-hit or collision shape", loops, n))
 	c.Floor(rule, 1, "map loops scanned")
 }
+
+// checkCTEFreshNames (CTEFRESH): columns are identified by unique names handed out at typecheck time, and a join's
+// schema is the concatenation of its inputs' fields, resolved by first match. A common table expression is typechecked
+// once; if every reference returns that one node and its name mapping verbatim, two references in one query carry the
+// same unique names — a self-join of a CTE reads the left input's columns for both sides — and the shared mapping is
+// mutated by the join that merges it. A reference must return fresh unique names (and its own mapping).
+func checkCTEFreshNames(c *core.Ctx, rule string) {
+	p := c.Prog
+	fn := p.Func("logical", "(*DataSource).Typecheck")
+	key := "logical.(*DataSource).Typecheck/common table expression reference"
+	if fn == nil {
+		c.Unknown(rule, key, 0, "anchor not found")
+		return
+	}
+	c.SawFunc("logical.(*DataSource).Typecheck")
+	var block *ast.IfStmt
+	var cteVar string
+	ast.Inspect(fn.Decl.Body, func(n ast.Node) bool {
+		is, ok := n.(*ast.IfStmt)
+		if !ok || is.Init == nil || block != nil {
+			return true
+		}
+		if as, ok := is.Init.(*ast.AssignStmt); ok && len(as.Rhs) == 1 && strings.Contains(core.ExprStr(as.Rhs[0]), "CommonTableExpressions[") {
+			block = is
+			if id, ok := as.Lhs[0].(*ast.Ident); ok {
+				cteVar = id.Name
+			}
+		}
+		return true
+	})
+	if block == nil {
+		c.Unknown(rule, key, fn.Decl.Pos(), "the lookup of the data source's name among the common table expressions was not found")
+		return
+	}
+	bad := ""
+	fresh := false
+	n := 0
+	ast.Inspect(block.Body, func(nd ast.Node) bool {
+		switch v := nd.(type) {
+		case *ast.CallExpr:
+			if strings.HasSuffix(p.CalleeName(fn.Info(), v), "Environment).GetUnique") || strings.HasSuffix(core.ExprStr(v.Fun), ".GetUnique") {
+				fresh = true
+			}
+		case *ast.ReturnStmt:
+			n++
+			if len(v.Results) == 2 {
+				if core.ExprStr(v.Results[0]) == cteVar+".Node" {
+					bad = fmt.Sprintf("%s: every reference returns the one node the expression was typechecked to: two references in one query have the same unique column names, and a join of the two resolves both sides' columns to the left input", p.Pos(v.Pos()))
+				} else if core.ExprStr(v.Results[1]) == cteVar+".UniqueVariableMapping" {
+					bad = fmt.Sprintf("%s: every reference returns the expression's one name mapping, which the joins that merge mappings then modify in place for all other references", p.Pos(v.Pos()))
+				}
+			}
+		}
+		return true
+	})
+	if bad == "" && !fresh {
+		bad = "a reference to a common table expression does not allocate fresh unique column names (no GetUnique call)"
+	}
+	c.Decide(bad == "" && n > 0, rule, key, block.Pos(), n, "each reference gets fresh unique names and its own mapping", bad)
+}
